@@ -2,11 +2,11 @@
 package core
 
 import (
-	"sync/atomic"
 	"crypto/sha1"
 	"encoding/hex"
 	"fmt"
 	"sort"
+	"sync/atomic"
 )
 
 // Verdicts are three-valued.
@@ -111,6 +111,9 @@ type Prop struct {
 	// HangIsViolation: a watchdog hit that reproduces alone with the VM step
 	// counter not advancing is a violation (C01 hang rule).
 	HangIsViolation bool
+	// Sanitize: the thorough tier repeats the quick-tier case list in workers built with
+	// -race (race detector + checkptr); any report ends the worker and is a violation.
+	Sanitize bool
 	// NeedsZygoBin: the parent builds cmd/zygo into BinDir first.
 	NeedsZygoBin bool
 	// Budget is the default VM step budget per evaluation (0 = 2e6).
